@@ -150,6 +150,7 @@ class TorchOps(Ops):
         dtype = self.promote(a.dtype, b.dtype)
         if dtype == "Mixed":
             self.ev("dtype_mix", node, left=a.dtype, right=b.dtype)
+        self.note_degree(deg_add(a.deg, b.deg), a, b, node)
         return TV(kind=kind, axes=axes, p=p, q=q, s=s, z=z, span=span, deg=deg_add(a.deg, b.deg), dtype=dtype,
                   origin=a.origin | b.origin, gen=a.gen | b.gen, rng=a.rng or b.rng)
 
